@@ -121,7 +121,8 @@ def run_case(ctx, g, rng):
         else:
             if rng.random() < 0.15:  # add_prefix building an invalid record must be a clean ValueError too
                 new = new._replace(psyn=new.psyn + (new.prefix,))
-            o = call(c.add_prefix, new.prefix, new.uri_prefix, list(new.psyn) or None, list(new.usyn) or None,
+            coll = rng.choice([list, tuple, set, lambda x: list(x)])  # any Collection is accepted
+            o = call(c.add_prefix, new.prefix, new.uri_prefix, coll(new.psyn) if new.psyn else None, coll(new.usyn) if new.usyn else None,
                      case_sensitive=cs, merge=merge)
             op = "add_prefix"
         after = list(spec.snapshot(c))
